@@ -236,7 +236,7 @@ func ruleAdjacencyNotAliased(c *Check, rule string) {
 
 type guard struct {
 	T, Field, Mutex string
-	Why            string
+	Why             string
 }
 
 // The guard table, from the struct comments ("doneMutex protects completions",
